@@ -359,3 +359,78 @@ fn c09_q_spsc_async_cancel_drops() {
   assert!(drops(1) == 1, "C09: value 1 not dropped exactly once");
   kani::cover!(sc == 1, "batch cancelled half way");
 }
+
+/// C06 (symbolic poll-level program on the receive side): N steps over {poll the recv future with waker
+/// 0 or 1 (creating it if needed), cancel it, try_send, drop the sender}. After every step: a Pending
+/// recv future whose operation became possible (value buffered or sender gone) has been woken through
+/// the waker of its latest poll; values arrive exactly once, in order.
+macro_rules! spsc_async_recv_program {
+  ($name:ident, $n:expr, $unw:expr) => {
+    #[kani::proof]
+    #[kani::unwind($unw)]
+    fn $name() {
+      let (tx0, mut rx) = spsc::bounded_async::<u8>(2);
+      let mut tx = Some(tx0);
+      let rxp: *mut ARx<u8> = &mut rx; // the future borrows the receiver for its whole life; at most one exists at a time
+      let mut f = None;
+      let mut pending = false;
+      let mut last_waker = 0usize;
+      let mut base = 0u32;
+      let mut sent: u8 = 0;
+      let mut got: u8 = 0;
+      let mut saw_disc = false;
+      let mut step = 0;
+      while step < $n {
+        let op: u8 = kani::any();
+        kani::assume(op < 5);
+        if op <= 1 {
+          let w = op as usize;
+          if f.is_none() {
+            f = Some(unsafe { (*rxp).recv() });
+          }
+          base = wakes(w);
+          last_waker = w;
+          match poll_slot(&mut f, w) {
+            Poll::Ready(Ok(v)) => {
+              assert!(v == got && got < sent, "C02: recv future returned a wrong value");
+              got += 1;
+              f = None;
+              pending = false;
+            }
+            Poll::Ready(Err(_)) => {
+              assert!(tx.is_none() && got == sent, "C04: Disconnected while a sender is alive or values are buffered");
+              saw_disc = true;
+              f = None;
+              pending = false;
+            }
+            Poll::Pending => {
+              assert!(got == sent && tx.is_some(), "C06: recv Pending although a value is buffered or the sender is gone");
+              pending = true;
+            }
+          }
+        } else if op == 2 {
+          f = None;
+          pending = false;
+        } else if op == 3 {
+          if let Some(t) = tx.as_mut() {
+            if sent - got < 2 {
+              assert!(t.try_send(sent).is_ok(), "C03: try_send failed although there is room");
+              sent += 1;
+            }
+          }
+        } else {
+          tx = None;
+        }
+        if pending && (got < sent || tx.is_none()) {
+          assert!(wakes(last_waker) > base, "C06: pending recv not woken through its latest waker although it can complete");
+        }
+        step += 1;
+      }
+      kani::cover!(saw_disc, "Disconnected observed through the future");
+      kani::cover!(got >= 2, "two values received through futures");
+      std::mem::forget(f);
+    }
+  };
+}
+spsc_async_recv_program!(c06_q_spsc_async_recv_program_n4, 4, 5);
+spsc_async_recv_program!(c06_t_spsc_async_recv_program_n5, 5, 6);
